@@ -9,7 +9,50 @@ import (
 	"encoding/json"
 	"fmt"
 	"os"
+	"runtime"
+	"sync/atomic"
+	"time"
 )
+
+// Watchdog: a case that runs longer than CaseTimeout or grows the heap beyond HeapLimit makes the
+// executor print {"id":..,"fatal":..} for that case and exit(5); the driver then continues after it.
+var (
+	CaseTimeout = 20 * time.Second
+	HeapLimit   = uint64(3) << 30
+	curID       int64
+	curStart    int64
+)
+
+// Begin marks the start of case id (call it first thing in the case function).
+func Begin(id int) {
+	atomic.StoreInt64(&curID, int64(id))
+	atomic.StoreInt64(&curStart, time.Now().UnixNano())
+}
+
+func watchdog(flush func()) {
+	var ms runtime.MemStats
+	for {
+		time.Sleep(200 * time.Millisecond)
+		st := atomic.LoadInt64(&curStart)
+		if st == 0 {
+			continue
+		}
+		why := ""
+		if time.Duration(time.Now().UnixNano()-st) > CaseTimeout {
+			why = "timeout"
+		} else {
+			runtime.ReadMemStats(&ms)
+			if ms.HeapAlloc > HeapLimit {
+				why = "memory"
+			}
+		}
+		if why != "" {
+			flush()
+			fmt.Fprintf(os.Stdout, "{\"id\":%d,\"fatal\":%q}\n", atomic.LoadInt64(&curID), why)
+			os.Exit(5)
+		}
+	}
+}
 
 // Main runs f over every input line.
 func Main(f func(line []byte, out *json.Encoder) error) {
@@ -17,6 +60,7 @@ func Main(f func(line []byte, out *json.Encoder) error) {
 	in.Buffer(make([]byte, 1<<20), 1<<28)
 	w := bufio.NewWriterSize(os.Stdout, 1<<20)
 	out := json.NewEncoder(w)
+	go watchdog(func() {})
 	for in.Scan() {
 		if len(in.Bytes()) == 0 {
 			continue
